@@ -121,6 +121,27 @@ def build(S):
             S.add_canary(I, "replace/selection/canary#%d" % i, [h for h in p.pc if not z3.is_quantifier(h)])
         S.add_interp_obligations(I)
     S.guarded('selection block', run)
+
+    def options():
+        # the occurrences that are replaced are the ones a search with the caller's options finds: the single call of find_pattern_in_structure
+        # receives atol and the three hint indices of the caller, and none of these parameters (nor the fraction / replace_all switches the
+        # block contracts read) is rebound anywhere in the function
+        I = S.interp()
+        fn = I.module(REL).find(FN)
+        params = [a.arg for a in fn.args.args + fn.args.kwonlyargs]
+        calls = [n for n in ast.walk(fn) if isinstance(n, ast.Call) and ast.unparse(n.func).split('.')[-1] == 'find_pattern_in_structure']
+        if len(calls) != 1:
+            raise OutOfSubset("expected exactly one call of find_pattern_in_structure in %s (contract no longer applies)" % FN)
+        kws = {k.arg: ast.unparse(k.value) for k in calls[0].keywords if k.arg}
+        if any(o not in kws for o in ('atol', 'axisp1_idx', 'axisp2_idx', 'opoint_idx')):
+            raise OutOfSubset("the options are not passed to find_pattern_in_structure by keyword (contract no longer applies)")
+        passed = all(kws[o] in (o, 'float(%s)' % o) for o in ('atol', 'axisp1_idx', 'axisp2_idx', 'opoint_idx'))
+        S.add(I, "replace/options/search-uses-the-callers-tolerance-and-hints", [], z3.BoolVal(passed and all(o in params for o in ('atol', 'axisp1_idx', 'axisp2_idx', 'opoint_idx'))),
+              clause='replaced occurrences are those found with the same options')
+        watched = ('atol', 'axisp1_idx', 'axisp2_idx', 'opoint_idx', 'replace_fraction', 'replace_all')
+        rebound = sorted({n.id for n in ast.walk(fn) if isinstance(n, ast.Name) and isinstance(n.ctx, (ast.Store, ast.Del)) and n.id in watched})
+        S.add(I, "replace/options/option-parameters-are-never-rebound", [], z3.BoolVal(not rebound), clause='replaced occurrences are those found with the same options')
+    S.guarded('options of the search', options)
     prove_frame(S)
     S.clause('number of replaced matches = round(f*M), reported count equals it, only found matches, none twice', 'PROVED (block contract)')
     S.clause('deletion set / overlap', 'PROVED in C07 (same statements)')
